@@ -371,6 +371,7 @@ def attribute_c05(sig, causes):
     """which recorded findings may absorb a failure with this signature (a finding absorbs only what it explains)"""
     if sig == "C05/models": return causes & {"model-version-defaulted"}
     if sig == "C05/write-raises-empty": return {"empty-namespace"}
+    if sig == "C05/write-raises" and "row-labels-as-ids" in causes: return {"row-labels-as-ids"}
     cs = causes & STRUCTURAL_CAUSES
     # a namespace without nodes whose write raised was left out of the round trip: it explains its own absence and nothing else
     if C05_INFO["skipped"] and not C05_INFO["empty_written"] and sig != "C05/namespaces": cs = cs - {"empty-namespace"}
@@ -518,7 +519,7 @@ def run(ctx, prop):
     for (ci, uri, inc, out), ca in zip(TXT_META, cans):
         if vlib.untext(ca) != "true": continue
         nclean += 1
-        if out[0] != "ok": ctx.disagree("text-domain", dict(case=ci, uri=uri, inc=inc), out[:2], "text_clean = true"); continue
+        if out[0] != "ok": ctx.disagree("out-of-domain" if "row-labels-as-ids" in CAUSES_OF.get((ci, uri, inc), ()) else "text-domain", dict(case=ci, uri=uri, inc=inc), out[:2], "text_clean = true"); continue
         try: ET.fromstring(out[1].encode("utf-8"))
         except ET.XMLSyntaxError as e:
             ctx.fail("C07/ill-formed-inside-theorem-domain", dict(kind="write", files=None, uri=uri, inc=inc), str(e)[:150])
@@ -549,8 +550,9 @@ def run(ctx, prop):
         if io == mm or (io[0] == "ok" and mm[0] == "ok" and same_doc(io[1], mm[1])): continue
         # where the code splices strings into markup without escaping, the element-level model (what a reader gives back) does not apply;
         # the text-level model below is compared character for character on those cases too
-        unesc = CAUSES_OF.get((ci, uri, inc), set()) & {"raw-nodeid-attribute", "quote-in-attribute", "uri-unescaped"}
-        # (an ill-formed document is outside the model only where a recorded unescaped splice explains it)
+        unesc = CAUSES_OF.get((ci, uri, inc), set()) & {"raw-nodeid-attribute", "quote-in-attribute", "uri-unescaped", "row-labels-as-ids"}
+        # (an ill-formed document is outside the model only where a recorded unescaped splice explains it; a write that the validator refuses because it read
+        #  row labels as ids is outside the writer model, which does not contain the validator - that is C16's model)
         stream = "out-of-domain" if unesc else "write"
         def first_diff(a, b):
             if a[0] != "ok" or b[0] != "ok": return None
@@ -612,6 +614,9 @@ def write_causes(G, tables, uri, out, inc=True):
     for u in ns:
         if "&" in u or "<" in u: c.add("uri-unescaped")
     if any(m.get("version") is None for m in G.models): c.add("model-version-defaulted")
+    # the write-time validator looks declared types up by ROW LABEL (recorded under C16): on a graph whose node table is labelled otherwise than by its
+    # ids, a correctly typed variable can be rejected and the write raises ValidationError.  Explains exactly that outcome and nothing else.
+    if out and out[0] == "err" and len(out) > 1 and out[1] == "ValidationError" and list(G.nodes.index) != [int(i) for i in G.nodes["id"]]: c.add("row-labels-as-ids")
     return c
 
 TRUSTED = ["hand-written Gallina model coq/M_Write.v of UAGraph.write_nodeset, remove_instance_level_outgoing_references, create_nodeset2_file, find_namespaces_in_use, reindex_nodeids_browsenames, "
@@ -646,6 +651,7 @@ def known_case(which):
     if which == "reqversion": model = [dict(attrs=[("ModelUri", U), ("Version", "1.0.0")], required=[[("ModelUri", UA), ("PublicationDate", "2019-01-01T00:00:00Z")]])]
     if which == "vtvalue": nodes = [_node("UAVariableType", "ns=1;i=1", "1:VT", attrs=[("DataType", "i=1")], refs=[("i=45", "false", "i=85")], value='<Boolean xmlns="%s">true</Boolean>' % uaconv.TYPES_NS)]
     if which == "flags": nodes = [_node("UAObjectType", "ns=1;i=1", "1:T", attrs=[("IsAbstract", "true")], refs=[("i=45", "false", "i=85")]), _node("UAVariable", "ns=1;i=2", "1:V", attrs=[("DataType", "i=1")], refs=[("i=47", "false", "i=85")])]
+    if which == "rowlabels": nodes = [_node("UADataType", "i=12", "String"), _node("UAVariable", "ns=1;i=2", "1:V", attrs=[("DataType", "i=1")], refs=[("i=47", "false", "i=85")], value='<Boolean xmlns="%s">true</Boolean>' % uaconv.TYPES_NS)]
     if which == "eventnotifier": nodes = [_node("UAObject", "ns=1;i=1", "1:A", attrs=[("EventNotifier", "255")], refs=[("i=47", "false", "i=85")]),
                                           _node("UAVariable", "ns=1;i=2", "1:V", attrs=[("DataType", "i=1"), ("AccessLevel", "255"), ("ValueRank", "-1")], refs=[("i=47", "false", "i=85")])]
     d = dict(uris=uris, models=model, aliases=None, nodes=nodes)
@@ -749,6 +755,13 @@ def write_replay(case, prop):
         paths = graphprops.write_files(work, files)
         st, G = graphprops.build(paths)
         if G is None: return [("%s/known-case-unbuildable" % prop, "%r" % (st,))]
+        if case["which"] == "rowlabels":
+            # the same graph with the row labels of the Boolean and the String data type exchanged (labels are the caller's business)
+            from opcua_tools.ua_graph import UAGraph
+            nodes_ = G.nodes.copy(); lab = list(nodes_.index)
+            ib = lab[list(nodes_["DisplayName"]).index("Boolean")]; is_ = lab[list(nodes_["DisplayName"]).index("String")]
+            nodes_.index = [is_ if l == ib else (ib if l == is_ else l) for l in lab]
+            G = UAGraph(nodes=nodes_, references=G.references.copy(), namespaces=list(G.namespaces), models=copy.deepcopy(G.models))
         tables = graph_tables(G)
         out = impl_write(copy.deepcopy(G), uri, True)
         causes = write_causes(G, tables, uri, out)
